@@ -15,6 +15,8 @@ pub(crate) mod c08;
 pub(crate) mod topo;
 #[path = "/verif/harness/d/c01.rs"]
 pub(crate) mod c01;
+#[path = "/verif/harness/d/c01_rtc.rs"]
+pub(crate) mod c01_rtc;
 #[path = "/verif/harness/d/c10.rs"]
 pub(crate) mod c10;
 #[path = "/verif/harness/d/c13.rs"]
@@ -112,6 +114,7 @@ pub(crate) fn verif_main(args: &[String]) -> i32 {
 pub(crate) fn verif_main(args: &[String]) -> i32 {
     let c08 = c08::HoldTimers;
     let c01 = c01::Convergence;
+    let c01r = c01_rtc::RtcConvergence;
     let c10 = c10::GrHelper;
     let c13 = c13::RtrClient;
     let c07 = c07::FsmWire;
@@ -128,6 +131,6 @@ pub(crate) fn verif_main(args: &[String]) -> i32 {
     let c19 = c18::Monitoring { prop: "C19" };
     let c04 = c04::BulkExport;
     let c19m = c19_mrt::MrtDumps;
-    let checks: Vec<&dyn Check> = vec![&c08, &c01, &c10, &c13, &c07, &c07b, &c16, &c09, &c05, &c11, &c15s, &c20, &c20v, &c18, &c18w, &c19, &c19m, &c04];
+    let checks: Vec<&dyn Check> = vec![&c08, &c01, &c01r, &c10, &c13, &c07, &c07b, &c16, &c09, &c05, &c11, &c15s, &c20, &c20v, &c18, &c18w, &c19, &c19m, &c04];
     vcore::main_with(&checks, &plan, args)
 }
